@@ -135,32 +135,89 @@ func c08EventsPollers(w *fw.Worker, i int, r *fw.Rand) {
 	}
 	per := w.Pick(2500, 40000)
 	var rwg sync.WaitGroup
-	var stuck atomic.Bool
+	var halt atomic.Bool
+	// The reports carry no deadline of their own: whether one is stuck is decided from goroutine states taken WHILE it is
+	// still pending (after a timed-out call has returned the monitor is idle whatever happened; on a machine at load 300
+	// a 5s deadline was met by scheduling delay alone).
+	rctx, rcancel := context.WithCancel(ctx)
+	defer rcancel()
+	var prog [2]atomic.Int64
+	var failed atomic.Pointer[error]
 	for s := 0; s < 2; s++ {
 		rwg.Add(1)
 		go func(s int) {
 			defer rwg.Done()
-			for k := 0; k < per && !stuck.Load(); k++ {
+			for k := 0; k < per && !halt.Load(); k++ {
 				l := e.NewLayer()
 				l.Set[k%4], l.Set[2] = true, true
-				// (watchdog only; 5s was met by mere scheduling delay on a machine with a load average of 300)
-				rctx, cancel := context.WithTimeout(ctx, 30*time.Second)
-				rerr := e.Srcs[s].Report(rctx, l, true)
-				cancel()
-				if rerr != nil {
-					stuck.Store(true)
+				if rerr := e.Srcs[s].Report(rctx, l, true); rerr != nil {
+					halt.Store(true)
+					failed.CompareAndSwap(nil, &rerr)
+					return
 				}
+				prog[s].Add(1)
 			}
 		}(s)
 	}
-	rwg.Wait()
-	close(stop)
-	pwg.Wait()
-	w.Count("reports_under_events_pollers", int64(2*per))
+	finished := make(chan struct{})
+	go func() { rwg.Wait(); close(finished) }()
+	snapshot := func() [2]int64 { return [2]int64{prog[0].Load(), prog[1].Load()} }
+	callerParked := func() bool {
+		for _, g := range dialsGoroutines([]string{"BlockingReportNewValue"}) {
+			if strings.Contains(strings.SplitN(g, "\n", 2)[0], "[select") {
+				return true
+			}
+		}
+		return false
+	}
+	endPollers := func() { close(stop); pwg.Wait() }
+	last, lastChange := snapshot(), time.Now()
+watch:
+	for {
+		select {
+		case <-finished:
+			break watch
+		case <-time.After(250 * time.Millisecond):
+		}
+		if cur := snapshot(); cur != last {
+			last, lastChange = cur, time.Now()
+			continue
+		}
+		if time.Since(lastChange) < 5*time.Second {
+			continue
+		}
+		// no blocking report has completed for 5s: two looks 300ms apart. The monitor parked in the same stuck state both
+		// times, a caller parked inside BlockingReportNewValue both times and still no progress => stuck; else keep waiting.
+		s1, d1 := monitorState()
+		p1 := callerParked()
+		time.Sleep(300 * time.Millisecond)
+		s2, _ := monitorState()
+		p2 := callerParked()
+		keys := map[string]string{"idle": "call-never-answered:monitor-idle", "send-in-update": "monitor-blocked-on-abandoned-caller", "receive-in-update": "monitor-blocked-in-a-receive-while-installing", "blocked-in-submit": "monitor-blocked-submitting-callback-event"}
+		if key, isStuck := keys[s1]; isStuck && s1 == s2 && p1 && p2 && snapshot() == last {
+			w.Violation(i, key, fmt.Sprintf("blocking reports of valid values while Events() is being polled: none has completed for %v (%v done); a caller is parked inside BlockingReportNewValue and the monitor goroutine is %s, in two dumps 300ms apart", time.Since(lastChange).Round(time.Millisecond), last, s1), map[string]any{"case": desc, "goroutine": fw.TrimStack(d1)})
+			halt.Store(true)
+			rcancel()
+			<-finished
+			endPollers()
+			e.S.Cancel()
+			return
+		}
+		if time.Since(lastChange) > 90*time.Second {
+			w.Inconclusive(i, fmt.Sprintf("blocking reports under Events() pollers: no progress for 90s, monitor state %s/%s, caller parked %v/%v", s1, s2, p1, p2))
+			halt.Store(true)
+			rcancel()
+			<-finished
+			endPollers()
+			e.S.Cancel()
+			return
+		}
+	}
+	endPollers()
+	w.Count("reports_under_events_pollers", prog[0].Load()+prog[1].Load())
 	w.Count("events_values_polled", received.Load())
-	if stuck.Load() {
-		// a valid blocking report did not complete within 30s: where is the monitor?
-		stuckVerdict(w, i, "valid blocking report while Events() is being polled", desc)
+	if ep := failed.Load(); ep != nil {
+		w.Violation(i, "valid-report-failed-under-events-pollers", (*ep).Error(), desc)
 		e.S.Cancel()
 		return
 	}
